@@ -6,6 +6,7 @@ import (
 	"encoding/binary"
 	"errors"
 	"fmt"
+	"github.com/influxdata/influxdb/pkg/verifhook"
 	"io"
 	"math"
 	"os"
@@ -382,6 +383,7 @@ func (t *Tombstoner) commit() error {
 	if err := t.bw.Flush(); err != nil {
 		return err
 	}
+	verifhook.At("ts.flushed", t.pendingFile.Name(), 0)
 
 	// fsync the file to flush the write
 	if err := t.pendingFile.Sync(); err != nil {
@@ -390,6 +392,7 @@ func (t *Tombstoner) commit() error {
 
 	tmpFilename := t.pendingFile.Name()
 	t.pendingFile.Close()
+	verifhook.At("ts.tmpwritten", tmpFilename, 0)
 
 	if err := t.obs.FileFinishing(tmpFilename); err != nil {
 		return err
@@ -402,6 +405,7 @@ func (t *Tombstoner) commit() error {
 	if err := file.SyncDir(filepath.Dir(t.tombstonePath())); err != nil {
 		return err
 	}
+	verifhook.At("ts.committed", t.tombstonePath(), 0)
 
 	t.pendingFile = nil
 	t.bw = nil
